@@ -547,6 +547,8 @@ class Evaluator:
         """the Raised for ``raise <exc_node>``: by the source text of the expression, plus its value when the expression is a
         name bound to / a call evaluating to an exception model (ExcVal)"""
         val = None
+        if isinstance(exc_node, ast.Name) and getattr(self.env.get(exc_node.id), '_original', None) is not None:
+            return self.env[exc_node.id]._original          # ``except X as e: ...; raise e``: the exception that was caught, as it was
         if isinstance(exc_node, ast.Name) and isinstance(self.env.get(exc_node.id), ExcVal):
             val = self.env[exc_node.id]
         elif isinstance(exc_node, ast.Call) and self.hook is not None:
@@ -655,6 +657,8 @@ class Evaluator:
             elif isinstance(st, ast.Continue):
                 raise _Continue()
             elif isinstance(st, ast.Raise):
+                if st.exc is None and getattr(self, '_handling', None):
+                    raise self._handling[-1]           # a bare raise in a handler: the exception being handled, as it was
                 raise (self.raised(st.exc) if st.exc is not None else Raised('re-raise'))
             elif isinstance(st, ast.Return):
                 raise _Return(self.ev(st.value) if st.value is not None else None)
@@ -686,7 +690,7 @@ class Evaluator:
             else:
                 raise Unsupported('statement %s' % type(st).__name__)
 
-    NATIVE_ERRORS = (KeyError, IndexError, ValueError, AttributeError, TypeError, ZeroDivisionError, StopIteration, OverflowError, _struct.error, NativeError)
+    NATIVE_ERRORS = (KeyError, IndexError, ValueError, AttributeError, TypeError, ZeroDivisionError, StopIteration, OverflowError, OSError, _struct.error, NativeError)
 
     def run_try(self, st):
         """try / except / else / finally: handlers are matched by exception class *name* (a ``raise X(...)`` executed by
@@ -713,8 +717,13 @@ class Evaluator:
                             eargs = e.value.args if isinstance(e, Raised) and isinstance(e.value, ExcVal) else getattr(e, 'args', ())
                             caught = Obj(args=tuple(eargs), what=str(e))
                             caught._exception_names = set(bases) | {'Exception', 'BaseException'}
+                            caught._original = e
                             self.env[h.name] = caught
-                        self.run(h.body)
+                        self._handling = getattr(self, '_handling', []) + [e]
+                        try:
+                            self.run(h.body)
+                        finally:
+                            self._handling = self._handling[:-1]
                         break
                 else:
                     raise
